@@ -54,7 +54,7 @@ def alter(block, kind, rng, below=None):
     return flip(raw, pos, bit), (pos, bit)
 
 
-def mk_chain(n, coin, rng, ntx_fn=lambda h: 1, real_genesis=True, segwit=False):
+def mk_chain(n, coin, rng, ntx_fn=lambda h: 1, real_genesis=True, segwit=False, odd=False):
     """chain starting at the coin's real genesis block when it can be reconstructed"""
     blocks = []
     g = btc.genesis_block(coin) if real_genesis else None
@@ -69,6 +69,11 @@ def mk_chain(n, coin, rng, ntx_fn=lambda h: 1, real_genesis=True, segwit=False):
                 wit = [rng.randbytes(rng.randrange(0, 70)) for _ in range(rng.randrange(1, 3))] if segwit else None
                 txs.append({'ver': 2, 'ins': [{'txid': rng.randbytes(32), 'idx': k, 'sig': rng.randbytes(rng.randrange(0, 30)), 'seq': 0xffffffff, 'wit': wit}],
                             'outs': [{'val': rng.randrange(10 ** 9), 'spk': btc.p2pkh(rng.randbytes(20))}], 'lock': 0})
+                if odd and k % 3 == 0:
+                    # stored with non-minimal CompactSize encodings: a txid is the hash of the bytes as stored
+                    t = txs[-1]
+                    t[rng.choice(['w_in', 'w_out'])] = rng.choice([3, 5, 9])
+                    rng.choice([t['ins'][0], t['outs'][0]])['w'] = rng.choice([3, 5, 9])
             # timestamps are arbitrary u32 values (also far in the future): --verify does not look at the clock
             b = datadir.mk_block(prev, txs, t=rng.choice([1300000000 + 600 * h, rng.randrange(1, 2 ** 32), 2 ** 32 - 1 - h]), nonce=h)
         blocks.append(b)
@@ -174,16 +179,32 @@ def main(ck, tier, w):
     for ci, coin in enumerate(btc.COINS):
         for j in range(2 if quick else 6):
             r0 = random.Random('%d-ok-%s-%d' % (seed, coin, j))
-            jobs.append((coin, r0, [r0.choice(counts) for _ in range(4)], r0.choice([0, 0, 1, 2, 3]), j % 2 == 1))
+            jobs.append((coin, r0, [r0.choice(counts) for _ in range(4)], r0.choice([0, 0, 1, 2, 3]), j % 2 == 1, (ci + j) % 3 == 0))
 
     def okjob(j):
-        coin, r0, cnts, start, segwit = j
-        blocks, real = mk_chain(len(cnts) + 1, coin, r0, ntx_fn=lambda h: cnts[h - 1], segwit=segwit)
+        coin, r0, cnts, start, segwit, odd = j
+        blocks, real = mk_chain(len(cnts) + 1, coin, r0, ntx_fn=lambda h: cnts[h - 1], segwit=segwit, odd=odd)
         if not real and start == 0:
             start = 1      # genesis parameters of this coin are not available offline: acceptance at height 0 not exercised
         d = write_dir(w, blocks, coin)
         r = run.run_parser(d.path, 'simplestats', coin=coin, start=start or None, verify=True)
         probs = judge(r, True, None, 'simplestats')
+        # the same transactions stored with a different (non-minimal) encoding of one length field are different bytes: the
+        # header no longer commits to them
+        if not probs and not odd:
+            h = r0.randrange(max(start, 1), len(blocks))
+            import copy
+            txs2 = copy.deepcopy(blocks[h]['txs'])
+            t = txs2[r0.randrange(len(txs2))]
+            if r0.random() < 0.5:
+                t[r0.choice(['w_in', 'w_out'])] = r0.choice([3, 5, 9])
+            else:
+                r0.choice([t['ins'][0], t['outs'][0]])['w'] = r0.choice([3, 5, 9])
+            stored = [b['raw'] for b in blocks]
+            stored[h] = btc.ser_block(blocks[h]['hdr'], txs2)
+            d3 = write_dir(w, blocks, coin, stored)
+            r3 = run.run_parser(d3.path, 'simplestats', coin=coin, start=start or None, verify=True)
+            probs += ['re-encoded length field at height %d: %s' % (h, p) for p in judge(r3, False, h, 'simplestats')]
         # witness bytes are not covered by a txid: flipping them must not cause a rejection
         if segwit and not probs:
             stored = [b['raw'] for b in blocks]
